@@ -194,7 +194,7 @@ PLANE_INV = ["LiveOK", "IterInsertionOrder", "FindSound", "FindComplete", "GridC
              "ImplLive", "ImplIter", "ImplFindSound", "ImplFindComplete", "ImplSameWhenNoDev"]
 PLANE_RUNS = {
     "quick": [("SeqQuick", 5, 1), ("GeoQuick", 2, 0)],          # (setups, MaxOps, MaxDup)
-    "thorough": [("SeqFull", 6, 6), ("GeoFull", 2, 0)],
+    "thorough": [("SeqFull", 6, 2), ("GeoFull", 2, 0)],
 }
 
 
@@ -683,6 +683,32 @@ def validate_b(ck, dev, recorded):
     helper_traces(ck, rng, hrec)
 
 
+def tlaps_supplement(ck):
+    """unbounded supplement (never deciding): the polynomial laws over all integers with TLAPS/SMT, when tlapm is there"""
+    import shutil
+    import subprocess
+    exe = shutil.which("tlapm")
+    if not exe:
+        ck.extra["tlaps"] = "tlapm not installed - supplement skipped"
+        return
+    d = os.path.join(ck.tmp, "tlaps")
+    os.makedirs(d, exist_ok=True)
+    for m in ("Affine.tla", "AffineProofs.tla"):
+        shutil.copy(os.path.join(SPECS, "geom", m), d)
+    try:
+        p = subprocess.run([exe, "--toolbox", "0", "0", "AffineProofs.tla"], cwd=d, stdout=subprocess.PIPE,
+                           stderr=subprocess.STDOUT, text=True, timeout=600)
+        out = p.stdout
+        proved = out.count("@!!status:proved")
+        failed = out.count("@!!status:failed")
+        ck.extra["tlaps"] = {"obligations_proved": proved, "failed": failed, "all_proved": "obligations proved" in out and failed == 0,
+                             "theorems": ["UnitLaw", "ComposeLaw", "NormLaw", "TranslateLaw", "AssocLaw", "MultMatchesRef"]}
+        if failed or "obligations proved" not in out:
+            ck.note("TLAPS supplement did not prove every obligation (not deciding): %d proved, %d failed" % (proved, failed))
+    except Exception as e:  # the supplement never affects the verdict
+        ck.extra["tlaps"] = "tlapm run failed: %r" % (e,)
+
+
 def run(ck):
     dev = active("geom")
     ck.extra["deviations_modelled_as_coded"] = dev
@@ -723,6 +749,8 @@ def run(ck):
     t1 = time.time()
     validate_b(ck, dev, recorded)
     phases["B_validate"] = round(time.time() - t1, 1)
+    if ck.tier == "thorough":
+        tlaps_supplement(ck)
     ck.extra["phase_wall_s"] = phases
     ck.exhaustive = True
 
